@@ -1037,7 +1037,13 @@ impl<'a, 'b> GeneratorState<'a> {
             Some(else_statement) => {
                 let else_label = format!(".else{}", self.local_label_counter_if);
                 self.generate_condition(condition, pos, true, &else_label, false)?;
-                let saved_flags = self.flags.clone();
+                // With && and ||, the else label is reached from several tests: the flags
+                // don't describe the last operand only
+                let saved_flags = if has_several_tests(condition) {
+                    FlagsState::Unknown
+                } else {
+                    self.flags.clone()
+                };
                 self.generate_statement(body)?;
                 self.asm(JMP, &ExprType::Label(ifend_label.clone()), 0, false)?;
                 self.label(&else_label)?;
@@ -1155,6 +1161,14 @@ impl<'a, 'b> GeneratorState<'a> {
             }
         }
         Ok(())
+    }
+}
+
+fn has_several_tests(condition: &Expr) -> bool {
+    match condition {
+        Expr::BinOp { op, .. } => matches!(op, Operation::Land | Operation::Lor),
+        Expr::Not(e) => has_several_tests(e),
+        _ => false,
     }
 }
 
